@@ -7,7 +7,7 @@ import struct
 PROP = "C01"
 READY = True
 COQ_PROPS = ['Properties_C01']
-RULE = ('operation scripts over update_theta_sketch registers built through the builder (lg_k 5,6,7 and sometimes 12 quick; 5..14 thorough; '
+RULE = ('operation scripts over update_theta_sketch registers built through the builder (lg_k 5,6,7 and sometimes 12 quick; 5..13 thorough; '
         'resize factor X1..X8; p in {1, 0.5, 0.01f, 2^-20, random float, tiny, NaN}; seeds 9001, 1, 0, 2^64-1, random; refused builder '
         'arguments), streams of up to 40*k updates (k = 2^lg_k) drawn from a universe sized to give many duplicates, every update overload '
         '(u/int 8/16/32/64 with sign-extension edge values, double and float bit patterns incl. -0.0, NaN payloads, subnormals, infinities, '
@@ -89,8 +89,8 @@ def gen(rng, tier):
         if quick:
             lgk = rng.choice([5, 5, 5, 6, 6, 7]) if ci % 30 else 12
         else:
-            # large tables are slow in the list-based model runner: lg_k 12..14 once in 40 cases (the theorems cover every lg_k)
-            lgk = rng.choice([5, 5, 6, 6, 7, 7, 8, 8, 9, 10, 11]) if ci % 40 else rng.choice([12, 13, 14])
+            # large tables are slow in the list-based model runner: lg_k 12..13 once in 40 cases (the theorems cover every lg_k)
+            lgk = rng.choice([5, 5, 6, 6, 7, 7, 8, 8, 9, 10, 11]) if ci % 40 else rng.choice([12, 13])
         k = 1 << lgk
         rf = rng.randrange(4)
         pk = rng.random()
